@@ -1110,17 +1110,17 @@ fn check_c13(
         if iso.has_tree {
             let distinct: BTreeSet<&String> = iso.imports.iter().collect();
             for q in distinct {
-                // Note: a multiset - how often each kind is registered under the key. An
-                // implementation may legitimately resolve a key defined several times by counting.
-                let mut kinds: Vec<&str> = Vec::new();
+                // Note: the SET of kinds registered under the key - the literal reading of C13
+                // ("whether an item is registered under that key ... and which kind it has"): how
+                // MANY files register it with a kind is not a fact a file's result may depend on.
+                let mut kinds: BTreeSet<&str> = BTreeSet::new();
                 if let Some(v) = registered.get(q) {
                     for (id, kind) in v {
-                        kinds.push(kind);
+                        kinds.insert(kind);
                         if id != k {
                             o.push((q.clone(), kind.clone()));
                         }
                     }
-                    kinds.sort();
                     if v.iter().any(|(id, _)| id != k) {
                         some_import_registered.insert(k.clone());
                     }
@@ -1131,6 +1131,7 @@ fn check_c13(
             f.push_str("<no tree>");
         }
         o.sort();
+        o.dedup();
         facts.insert(k.clone(), (e.text.clone(), f));
         others.insert(k.clone(), o);
     }
